@@ -288,11 +288,11 @@ class Body:
             elif kk == "field":
                 # closure upvars
                 if isinstance(e, (Var,)) and e.local == 1 and self.kind == "Closure" and pr["i"] in self.upvar_names:
-                    e = Upvar(self.upvar_names[pr["i"]], pr["i"])
+                    e = Upvar(self.upvar_names[pr["i"]], pr["i"], pr.get("ty"))
                 elif isinstance(e, Deref) and isinstance(e.x, Var) and e.x.local == 1 and self.kind == "Closure" and pr["i"] in self.upvar_names:
-                    e = Upvar(self.upvar_names[pr["i"]], pr["i"])
+                    e = Upvar(self.upvar_names[pr["i"]], pr["i"], pr.get("ty"))
                 else:
-                    e = Field(e, pr.get("n", str(pr["i"])), pr["i"], pr.get("adt"))
+                    e = Field(e, pr.get("n", str(pr["i"])), pr["i"], pr.get("adt"), pr.get("ty"))
             elif kk == "index":
                 e = Index(e, self.expr_of_local(pr["l"], depth - 1, at))
             elif kk == "cindex":
@@ -322,7 +322,7 @@ class Body:
             e = self.expr_of_call(node, depth - 1)
         e.site = (bi, si)
         if name is not None:
-            e = Named(name, l, e)
+            e = Named(name, l, e, self.locals[l]["ty"])
         return e
 
     def expr_of_call(self, t, depth=12):
@@ -421,19 +421,21 @@ class Var(Expr):
 
 
 class Upvar(Expr):
-    def __init__(self, name, idx):
+    def __init__(self, name, idx, ty=None):
         self.name = name
         self.idx = idx
+        self.ty = ty
 
     def __str__(self):
         return "^" + self.name
 
 
 class Named(Expr):
-    def __init__(self, name, local, x):
+    def __init__(self, name, local, x, ty=None):
         self.name = name
         self.local = local
         self.x = x
+        self.ty = ty
 
     def children(self):
         return [self.x]
@@ -466,11 +468,12 @@ class Ref(Expr):
 
 
 class Field(Expr):
-    def __init__(self, x, name, idx, adt=None):
+    def __init__(self, x, name, idx, adt=None, ty=None):
         self.x = x
         self.name = name
         self.idx = idx
         self.adt = adt
+        self.ty = ty
 
     def children(self):
         return [self.x]
